@@ -464,7 +464,9 @@ class SMCSampler(MCMCSampler):
         if beta is None:
             beta = state.get("beta", 0.0)
         iteration = state.get("iteration", 0)
-        self.history = state.get("history", SMCHistory())
+        # A checkpoint passed as a dictionary stays usable: continue with a copy
+        # of its history instead of appending to the caller's object.
+        self.history = copy.deepcopy(state.get("history", SMCHistory()))
         rng_state = state.get("rng_state")
         if rng_state is not None and hasattr(self.rng, "bit_generator"):
             self.rng.bit_generator.state = rng_state
